@@ -24,8 +24,10 @@ import (
 	"io"
 	"os"
 	"path/filepath"
+	"runtime"
 	"strconv"
 	"strings"
+	"sync"
 	"time"
 
 	enc "github.com/dapr/kit/schemes/enc/v1"
@@ -34,316 +36,7 @@ import (
 	"verifharness/lib"
 )
 
-const rule = "loop case: content non-empty or script has a zero-length read/failure; header case: any; document case: distinct (plaintext length, cipher, algorithm, key-name options, scripts)"
-
-type psCase struct {
-	Kind     string      `json:"kind"` // ps
-	Seg      int         `json:"seg"`
-	Len      int         `json:"len"`
-	Script   encx.Script `json:"script"`
-	FailCall int         `json:"failcall"` // -1 = never
-}
-
-func content(n int) []byte {
-	b := make([]byte, n)
-	for i := range b {
-		b[i] = byte(i%250 + 1)
-	}
-	return b
-}
-
-func (c psCase) line() string {
-	s := c.Script
-	s.Data = content(c.Len)
-	fc := "none"
-	if c.FailCall >= 0 {
-		fc = strconv.Itoa(c.FailCall)
-	}
-	return fmt.Sprintf("ps seg=%d %s failcall=%s", c.Seg, s.Line("data"), fc)
-}
-
-// runPS executes the real processSegments and renders the observation in the driver's format.
-func runPS(c psCase) string {
-	s := c.Script
-	s.Data = content(c.Len)
-	var calls []string
-	fn := func(out io.Writer, data []byte, num uint32, last bool) error {
-		l := 0
-		if last {
-			l = 1
-		}
-		calls = append(calls, fmt.Sprintf("%s:%d:%d", hex.EncodeToString(data), num, l))
-		if c.FailCall >= 0 && uint32(c.FailCall) == num {
-			return encx.ErrProc
-		}
-		_, err := out.Write(data)
-		return err
-	}
-	var out []byte
-	var terr error
-	gerr := encx.Guard(20*time.Second, func() error {
-		r := enc.VerifProcessSegments(s.Reader(), c.Seg, fn)
-		out, terr = encx.Drain(r, nil)
-		return nil
-	})
-	if gerr != nil {
-		return "term=" + encx.Canon(gerr)
-	}
-	return fmt.Sprintf("calls=%s out=%s term=%s", strings.Join(calls, ";"), hex.EncodeToString(out), encx.Canon(terr))
-}
-
-// compositions calls f with every composition of n (ordered chunk sizes summing to n).
-func compositions(n int, f func([]int)) {
-	if n == 0 {
-		f(nil)
-		return
-	}
-	for mask := 0; mask < 1<<(n-1); mask++ {
-		var parts []int
-		cur := 1
-		for i := 0; i < n-1; i++ {
-			if mask&(1<<i) != 0 {
-				parts = append(parts, cur)
-				cur = 1
-			} else {
-				cur++
-			}
-		}
-		parts = append(parts, cur)
-		f(parts)
-	}
-}
-
-func insertZero(caps []int, pos int) []int {
-	out := make([]int, 0, len(caps)+1)
-	out = append(out, caps[:pos]...)
-	out = append(out, 0)
-	out = append(out, caps[pos:]...)
-	return out
-}
-
-func genPS(tier string, rng *lib.Rand, search bool) []psCase {
-	var cases []psCase
-	terms := []string{"eof", "failOnce", "failSticky"}
-	add := func(seg, n int, caps []int, fail int) {
-		for _, ewd := range []bool{false, true} {
-			for _, t := range terms {
-				cases = append(cases, psCase{"ps", seg, n, encx.Script{Caps: append([]int(nil), caps...), EWD: ewd, Term: t}, fail})
-			}
-		}
-	}
-	maxFull := map[int]int{1: 4, 2: 7, 3: 10, 4: 9, 8: 8} // all compositions up to this length
-	if tier == "thorough" || search {
-		maxFull = map[int]int{1: 4, 2: 7, 3: 10, 4: 13, 8: 13}
-	}
-	for _, seg := range []int{1, 2, 3, 4, 8} {
-		for n := 0; n <= 3*seg+1; n++ {
-			if n <= maxFull[seg] {
-				compositions(n, func(parts []int) {
-					add(seg, n, parts, -1)
-					// one zero-length read at every position
-					if n <= 7 || tier == "thorough" {
-						for p := 0; p <= len(parts); p++ {
-							z := insertZero(parts, p)
-							add(seg, n, z, -1)
-							if n <= 4 || (tier == "thorough" && n <= 7) {
-								for q := p; q <= len(z); q++ {
-									add(seg, n, insertZero(z, q), -1)
-								}
-							}
-						}
-					} else {
-						z := insertZero(parts, rng.Intn(len(parts)+1))
-						add(seg, n, z, -1)
-						add(seg, n, insertZero(z, rng.Intn(len(z)+1)), -1)
-					}
-				})
-			} else {
-				k := 120
-				if tier == "thorough" || search {
-					k = 1500
-				}
-				for j := 0; j < k; j++ {
-					var parts []int
-					left := n
-					for left > 0 {
-						var c int
-						switch rng.Intn(4) {
-						case 0:
-							c = 1
-						case 1:
-							c = seg + rng.Range(-1, 1)
-						case 2:
-							c = rng.Range(1, left)
-						default:
-							c = rng.Range(1, 2*seg+2)
-						}
-						if c < 1 {
-							c = 1
-						}
-						if c > left && rng.Bool() {
-							c = left
-						}
-						parts = append(parts, c)
-						left -= c
-					}
-					for z := rng.Intn(3); z > 0; z-- {
-						parts = insertZero(parts, rng.Intn(len(parts)+1))
-					}
-					add(seg, n, parts, -1)
-				}
-			}
-			// caps larger than what is left, unlimited reads, aligned reads
-			add(seg, n, nil, -1)
-			add(seg, n, []int{seg}, -1)
-			add(seg, n, []int{seg + 1}, -1)
-			add(seg, n, []int{seg, 0, 1, 0}, -1)
-			// a failing processFn at every call
-			for fc := 0; fc*seg < n; fc++ {
-				add(seg, n, nil, fc)
-				add(seg, n, []int{1, seg, 1}, fc)
-			}
-		}
-	}
-	return cases
-}
-
-// ---- readHeader ----
-
-type rhCase struct {
-	Kind   string      `json:"kind"` // rh
-	Doc    string      `json:"doc_hex"`
-	Script encx.Script `json:"script"`
-}
-
-func (c rhCase) line() string {
-	s := c.Script
-	s.Data, _ = hex.DecodeString(c.Doc)
-	return "rh " + s.Line("data") + " fix=1"
-}
-
-func runRH(c rhCase) string {
-	s := c.Script
-	s.Data, _ = hex.DecodeString(c.Doc)
-	var res string
-	gerr := encx.Guard(20*time.Second, func() error {
-		m, mac, rest, err := enc.VerifReadHeader(s.Reader())
-		if err != nil {
-			res = "err=" + encx.Canon(err)
-			return nil
-		}
-		b, rerr := encx.Drain(rest, nil)
-		rt := "eof"
-		if rerr != nil {
-			rt = "fail"
-		}
-		res = fmt.Sprintf("ok manifest=%s mac=%s rest=%s restterm=%s", hex.EncodeToString(m), hex.EncodeToString(mac), hex.EncodeToString(b), rt)
-		return nil
-	})
-	if gerr != nil {
-		return "err=" + encx.Canon(gerr)
-	}
-	return res
-}
-
-func genRH(tier string, rng *lib.Rand, search bool) []rhCase {
-	var cases []rhCase
-	terms := []string{"eof", "failOnce", "failSticky"}
-	add := func(doc []byte, caps []int) {
-		for _, ewd := range []bool{false, true} {
-			for _, t := range terms {
-				cases = append(cases, rhCase{"rh", hex.EncodeToString(doc), encx.Script{Caps: append([]int(nil), caps...), EWD: ewd, Term: t}})
-			}
-		}
-	}
-	// well-formed small headers with 0..3 payload bytes; cuts enumerated around the three newlines
-	for extra := 0; extra <= 3; extra++ {
-		doc := []byte("dapr.io/enc/v1\nmf\nc\n")
-		doc = append(doc, []byte{0xAA, '\n', 0xBB}[:extra]...)
-		tail := len(doc) - 12 // enumerate all cut subsets over the last 12 positions
-		nb := len(doc) - tail - 1
-		if nb > 11 {
-			nb = 11
-		}
-		for mask := 0; mask < 1<<nb; mask++ {
-			var caps []int
-			cur := tail + 1
-			for i := 0; i < nb; i++ {
-				if mask&(1<<i) != 0 {
-					caps = append(caps, cur)
-					cur = 1
-				} else {
-					cur++
-				}
-			}
-			caps = append(caps, cur)
-			add(doc, caps)
-			if mask%7 == 0 {
-				add(doc, insertZero(caps, rng.Intn(len(caps)+1)))
-			}
-		}
-		// every truncation (= failure / EOF at every offset)
-		for cut := 0; cut <= len(doc); cut++ {
-			add(doc[:cut], nil)
-			add(doc[:cut], []int{1, 1, 1, 1, 1, 1, 1, 1, 1, 1, 1, 1, 1, 1, 1, 1, 1, 1, 1, 1, 1, 1, 1, 1})
-			add(doc[:cut], []int{14, 1, 0, 1, 2})
-		}
-	}
-	// malformed stream
-	bad := [][]byte{
-		[]byte(""), []byte("\n"), []byte("\n\n\n"), []byte("dapr.io/enc/v1\n\nmac\n"), []byte("dapr.io/enc/v1\nm\n\n"),
-		[]byte("dapr.io/enc/v2\nm\nc\n"), []byte("dapr.io/enc/v1"), []byte("dapr.io/enc/v1\n"), []byte("dapr.io/enc/v1\nm"),
-		[]byte("dapr.io/enc/v1\nm\n"), []byte("dapr.io/enc/v1\nm\nc"), []byte("dapr.io/enc/v1\r\nm\nc\n"), []byte("xdapr.io/enc/v1\nm\nc\n"),
-		[]byte("dapr.io/enc/v1\nm\nc\n\n\n"), []byte("dapr.io/enc/v1\nm\nc\nrest\nmore\n"),
-	}
-	for _, b := range bad {
-		add(b, nil)
-		add(b, []int{1, 1, 1, 1, 1, 1, 1, 1, 1, 1, 1, 1, 1, 1, 1, 1, 1, 1, 1, 1, 1})
-		add(b, []int{15, 0, 1, 1, 1, 1, 1})
-	}
-	// long headers: exactly at, below and above the 64 KiB limit; no newline at all
-	nLong := 2
-	if tier == "thorough" || search {
-		nLong = 8
-	}
-	for j := 0; j < nLong; j++ {
-		for _, total := range []int{65535, 65536, 65537} {
-			mlen := total - len("dapr.io/enc/v1\n") - len("\nc\n")
-			doc := []byte("dapr.io/enc/v1\n")
-			doc = append(doc, bytes.Repeat([]byte{'m'}, mlen)...)
-			doc = append(doc, "\nc\n"...)
-			doc = append(doc, "xyz"...)
-			sc := encx.RandomScript(rng, len(doc), 4096)
-			cases = append(cases, rhCase{"rh", hex.EncodeToString(doc), sc})
-		}
-		cases = append(cases, rhCase{"rh", hex.EncodeToString(bytes.Repeat([]byte{'q'}, 65536+rng.Intn(3))), encx.RandomScript(rng, 65538, 8000)})
-	}
-	// random mutations of a well-formed header
-	nMut := 300
-	if tier == "thorough" || search {
-		nMut = 5000
-	}
-	for j := 0; j < nMut; j++ {
-		doc := []byte("dapr.io/enc/v1\n{\"kw\":1}\nbWFj\npayload")
-		for k := rng.Range(1, 3); k > 0; k-- {
-			p := rng.Intn(len(doc))
-			switch rng.Intn(4) {
-			case 0:
-				doc[p] = '\n'
-			case 1:
-				doc = append(doc[:p], doc[p+1:]...)
-			case 2:
-				doc = append(doc[:p], append([]byte{'\n'}, doc[p:]...)...)
-			default:
-				doc[p] ^= 1 << uint(rng.Intn(8))
-			}
-		}
-		sc := encx.RandomScript(rng, len(doc), 5)
-		sc.Term = terms[rng.Intn(3)]
-		cases = append(cases, rhCase{"rh", hex.EncodeToString(doc), sc})
-	}
-	return cases
-}
+const rule = "interleave case: distinct (lengths, phase, bytes read first, B mode, GOMAXPROCS, parallelism); loop case: content non-empty or script has a zero-length read/failure; header case: any; document case: distinct (plaintext length, cipher, algorithm, key-name options, scripts)"
 
 // ---- documents ----
 
@@ -360,9 +53,94 @@ type docCase struct {
 	Src        encx.Script `json:"src_script"`
 	Mid        encx.Script `json:"doc_script"`
 	Out        []int       `json:"consumer_bufs"`
+	// large-header family: generated names / wrapped keys (lengths only, so that replay files stay small)
+	KeyNameLen    int `json:"key_name_len,omitempty"`            // > 0: KeyName is longName(len)
+	DecKeyNameLen int `json:"decryption_key_name_len,omitempty"` // > 0: DecryptionKeyName is longName(len)
+	WfkLen        int `json:"wrapped_key_len,omitempty"`         // > 32: WrapKeyFn returns that many bytes
+	HdrLen        int `json:"expected_header_len,omitempty"`     // header length these options produce (0 = not computed)
 }
 
 func plainOf(c docCase) []byte { return lib.NewRand(c.PlainSeed).Bytes(c.PlainLen) }
+
+// longName is a key name of n bytes that needs no JSON escaping.
+func longName(n int, salt byte) string {
+	const al = "abcdefghijklmnopqrstuvwxyz0123456789/-_."
+	b := make([]byte, n)
+	for i := range b {
+		b[i] = al[(i*7+int(salt))%len(al)]
+	}
+	return string(b)
+}
+
+func (c docCase) kn() string {
+	if c.KeyNameLen > 0 {
+		return longName(c.KeyNameLen, 'k')
+	}
+	return c.KeyName
+}
+
+func (c docCase) dkn() string {
+	if c.DecKeyNameLen > 0 {
+		return longName(c.DecKeyNameLen, 'd')
+	}
+	return c.DecKeyName
+}
+
+// wrapFor is what the harness's WrapKeyFn returns: the masked key, padded to WfkLen bytes.
+func (c docCase) wrapFor(k []byte) []byte {
+	w := wrapMask(k)
+	for i := len(w); i < c.WfkLen; i++ {
+		w = append(w, byte(i*13+5))
+	}
+	return w
+}
+
+// unwrapOf inverts wrapFor.
+func unwrapOf(w []byte) []byte {
+	if len(w) > 32 {
+		w = w[:32]
+	}
+	return wrapMask(w)
+}
+
+// headerLenOf computes the header length Encrypt must produce for these options (README layout:
+// scheme line, compact manifest in Go's field order, 44-character MAC line).
+func headerLenOf(c docCase) int {
+	wl := 32
+	if c.WfkLen > 32 {
+		wl = c.WfkLen
+	}
+	m := struct {
+		K   string `json:"k,omitempty"`
+		KW  int    `json:"kw"`
+		WFK []byte `json:"wfk"`
+		Cph int    `json:"cph"`
+		NP  []byte `json:"np"`
+	}{expectKeyName(c), 1, make([]byte, wl), 1, make([]byte, 7)}
+	b, _ := json.Marshal(m)
+	return len("dapr.io/enc/v1\n") + len(b) + 1 + 44 + 1
+}
+
+func hdrClass(n int) string {
+	if n <= 512 {
+		return ""
+	}
+	return ":large-header"
+}
+
+func hdrBucket(n int) string {
+	switch {
+	case n <= 512:
+		return "<=512"
+	case n <= 4096:
+		return "<=4096"
+	case n <= 16384:
+		return "<=16384"
+	case n <= 65536:
+		return "<=65536"
+	}
+	return ">65536"
+}
 
 var canonAlg = map[string]string{"A256KW": "A256KW", "A128CBC-NOPAD": "A128CBC-NOPAD", "A192CBC-NOPAD": "A192CBC-NOPAD",
 	"A256CBC-NOPAD": "A256CBC-NOPAD", "RSA-OAEP-256": "RSA-OAEP-256", "AES": "A256KW", "RSA": "RSA-OAEP-256"}
@@ -399,11 +177,11 @@ func runDoc(c docCase) docObs {
 	src := c.Src
 	src.Data = p
 	opts := enc.EncryptOptions{
-		Algorithm: enc.KeyAlgorithm(c.Alg), KeyName: c.KeyName, DecryptionKeyName: c.DecKeyName, OmitKeyName: c.Omit,
+		Algorithm: enc.KeyAlgorithm(c.Alg), KeyName: c.kn(), DecryptionKeyName: c.dkn(), OmitKeyName: c.Omit,
 		WrapKeyFn: func(k []byte, alg, kn string, nonce []byte) ([]byte, []byte, error) {
 			o.fk = append([]byte(nil), k...)
 			o.wrapAlg, o.wrapKey = alg, kn
-			return wrapMask(k), nil, nil
+			return c.wrapFor(k), nil, nil
 		},
 	}
 	if c.Cipher != "" {
@@ -433,7 +211,7 @@ func runDoc(c docCase) docObs {
 			UnwrapKeyFn: func(w []byte, alg, kn string, nonce, tag []byte) ([]byte, error) {
 				o.unwrapN++
 				o.unwrapAl, o.unwrapKN = alg, kn
-				return wrapMask(w), nil
+				return unwrapOf(w), nil
 			}})
 		if err != nil {
 			o.decErr = err
@@ -452,10 +230,10 @@ func expectKeyName(c docCase) string {
 	if c.Omit {
 		return ""
 	}
-	if c.DecKeyName != "" {
-		return c.DecKeyName
+	if c.dkn() != "" {
+		return c.dkn()
 	}
-	return c.KeyName
+	return c.kn()
 }
 
 func genDocs(tier string, rng *lib.Rand, search bool) []docCase {
@@ -505,6 +283,72 @@ func genDocs(tier string, rng *lib.Rand, search bool) []docCase {
 		}
 		cases = append(cases, c)
 	}
+	// large-header family: key names / decryption key names / wrapped keys that make the header
+	// 500 bytes … exactly 64 KiB (the limit of both SignHeader and readHeader's buffer), and just above it
+	mk := func(i int, plainLen int) docCase {
+		c := docCase{Kind: "doc", PlainLen: plainLen, PlainSeed: rng.U64(), Cipher: ciphers[i%3], Alg: algs[i%7], KeyName: "kn"}
+		c.Src = encx.RandomScript(rng, c.PlainLen, S)
+		c.Mid = encx.RandomScript(rng, 70000, []int{512, 4096, S + 16}[i%3])
+		return c
+	}
+	// fit adjusts the (decryption) key name so that the header has exactly `target` bytes
+	fit := func(c docCase, target int, dec bool) docCase {
+		if dec {
+			c.DecKeyNameLen = 1
+		} else {
+			c.KeyNameLen = 1
+		}
+		d := target - headerLenOf(c)
+		if d < 0 {
+			d = 0
+		}
+		if dec {
+			c.DecKeyNameLen += d
+		} else {
+			c.KeyNameLen += d
+		}
+		c.HdrLen = headerLenOf(c)
+		return c
+	}
+	targets := []int{500, 3000, 4095, 4096, 4097, 4759, 8192, 16384, 16385, 40000, 65535, 65536, 65537, 70001}
+	if tier == "thorough" || search {
+		targets = append(targets, 1000, 2048, 4000, 4200, 5000, 12000, 32768, 32769, 60000, 65000, 65530, 65540, 100000)
+	}
+	j := 0
+	for _, t := range targets {
+		pl := []int{10, 0, 300, S + 1}[j%4]
+		if tier == "quick" && !search && pl > 300 && j%8 != 3 {
+			pl = 17
+		}
+		cases = append(cases, fit(mk(j, pl), t, false))
+		j++
+		if t%2 == 0 || t > 60000 {
+			c := mk(j, 10)
+			c.Override = []string{"", "ov"}[j%2]
+			cases = append(cases, fit(c, t, true)) // long DecryptionKeyName, short KeyName
+			j++
+		}
+	}
+	// long wrapped keys (WrapKeyFn returning long byte strings), the key name fills up to the target
+	for _, w := range []int{33, 100, 2200, 2900, 3100, 10000, 30000, 48000} {
+		c := mk(j, []int{10, 300}[j%2])
+		c.WfkLen = w
+		c.HdrLen = headerLenOf(c)
+		cases = append(cases, c)
+		j++
+	}
+	for _, t := range []int{4097, 65536, 65537} {
+		c := mk(j, 10)
+		c.WfkLen = []int{2900, 40000, 48000}[j%3]
+		cases = append(cases, fit(c, t, false))
+		j++
+	}
+	{ // a wrapped key that alone exceeds the limit
+		c := mk(j, 10)
+		c.WfkLen = 50000
+		c.HdrLen = headerLenOf(c)
+		cases = append(cases, c)
+	}
 	// key-name option table, exhaustively over empty/non-empty
 	for _, dk := range []string{"", "dk"} {
 		for _, omit := range []bool{false, true} {
@@ -537,97 +381,10 @@ func run(f lib.Flags) {
 		return
 	}
 
-	// ---------- T2a: segment loop ----------
-	ps := genPS(f.Tier, rng.Fork(), f.Search)
-	var lines []string
-	for _, c := range ps {
-		lines = append(lines, c.line())
-	}
-	var answers []string
-	if drv != nil {
-		answers, err = drv.AskBatch(lines)
-		if err != nil {
-			res.Note("driver: " + err.Error())
-			res.Disagree("driver-alive", "ps batch", err.Error(), "")
-			answers = nil
-		}
-	}
-	for i, c := range ps {
-		if i%64 == 0 {
-			encx.Inflight(c)
-		}
-		impl := runPS(c)
-		checkPSMonitor(res, c, impl)
-		nontrivial := c.Len > 0 || c.Script.Term != "eof"
-		for _, z := range c.Script.Caps {
-			if z == 0 {
-				nontrivial = true
-			}
-		}
-		res.Count(lines[i], nontrivial)
-		res.Hit(fmt.Sprintf("ps.seg=%d", c.Seg))
-		res.Hit("ps.term=" + kvGet(impl, "term"))
-		res.Hit("ps.script.term=" + c.Script.Term)
-		if c.Len%c.Seg == 0 && c.Len > 0 {
-			res.Hit("ps.len=multiple-of-seg")
-		} else if c.Len%c.Seg == 1 && c.Len > 1 {
-			res.Hit("ps.len=multiple+1")
-		} else if c.Len == 0 {
-			res.Hit("ps.len=0")
-		} else {
-			res.Hit("ps.len=other")
-		}
-		if i%9973 == 0 {
-			res.Sample(c)
-		}
-		if answers != nil {
-			res.Traces++
-			if answers[i] != impl {
-				res.Disagree("processSegments(real, overlay) = Kit.Enc.processSegments", c, answers[i], impl)
-			}
-		}
-	}
-
-	// ---------- T2a: readHeader ----------
-	rh := genRH(f.Tier, rng.Fork(), f.Search)
-	lines = lines[:0]
-	for _, c := range rh {
-		lines = append(lines, c.line())
-	}
-	answers = nil
-	if drv != nil {
-		answers, err = drv.AskBatch(lines)
-		if err != nil {
-			res.Note("driver: " + err.Error())
-			res.Disagree("driver-alive", "rh batch", err.Error(), "")
-			answers = nil
-		}
-	}
-	for i, c := range rh {
-		if i%16 == 0 {
-			encx.Inflight(c)
-		}
-		impl := runRH(c)
-		res.Count(lines[i], true)
-		if strings.HasPrefix(impl, "ok") {
-			res.Hit("rh.ok")
-		} else {
-			res.Hit("rh." + impl)
-		}
-		if i%4999 == 0 {
-			res.Sample(c)
-		}
-		if strings.Contains(impl, "panic") || strings.Contains(impl, "timeout") {
-			res.Violate("readheader-"+strings.TrimPrefix(impl, "err="), "readHeader did not return normally", c)
-		}
-		if answers != nil {
-			res.Traces++
-			if answers[i] != impl {
-				res.Disagree("readHeader(real, overlay) = Kit.Enc.readHeader", c, answers[i], impl)
-			}
-		}
-	}
-
+	// ---------- T2a: the unexported loop and header reader (separate binary built with the overlay) ----------
+	encx.RunLoop("c01", f, res)
+	rng.Fork() // the loop harness consumes the first two forks of the same seed
+	rng.Fork()
 	// ---------- T2b + monitors: documents ----------
 	docs := genDocs(f.Tier, rng.Fork(), f.Search)
 	real := false
@@ -642,64 +399,15 @@ func run(f lib.Flags) {
 		encx.Inflight(c)
 		checkDoc(res, drv, real, c, rng, i)
 	}
+	for i, c := range genInterleave(f.Tier, rng.Fork(), f.Search) {
+		checkInterleave(res, c, i)
+	}
 	if real {
 		checkTestdata(res, drv)
 		checkLeanDocs(res, drv, rng.Fork(), f.Tier)
 	}
 	res.Exhaustive = true
 	res.Write(f.Out)
-}
-
-func kvGet(line, k string) string { return encx.KV(line)[k] }
-
-// checkPSMonitor: model-independent facts about one run of the loop: the calls are the pure
-// split of the delivered content (prefix of it when something failed), numbered from 0, only the
-// final one flagged last; a clean end processed everything.
-func checkPSMonitor(res *lib.Result, c psCase, impl string) {
-	kv := encx.KV(impl)
-	term := kv["term"]
-	if term == "panic" || term == "timeout" {
-		res.Violate("loop-"+term, "processSegments did not return normally", c)
-		return
-	}
-	data := content(c.Len)
-	var got []byte
-	callsStr := kv["calls"]
-	var calls []string
-	if callsStr != "" {
-		calls = strings.Split(callsStr, ";")
-	}
-	for i, cs := range calls {
-		p := strings.Split(cs, ":")
-		d, _ := hex.DecodeString(p[0])
-		if p[1] != strconv.Itoa(i) {
-			res.Violate("loop-numbering", "segment numbers are not 0,1,2,…", c)
-		}
-		isLast := p[2] == "1"
-		if (isLast && i != len(calls)-1) || (term == "ok" && i == len(calls)-1 && !isLast) {
-			res.Violate("loop-last-flag", "last flag on a non-final segment or missing on the final one", c)
-		}
-		if !isLast && len(d) != c.Seg {
-			res.Violate("loop-short-nonfinal", "a non-final segment is not full", c)
-		}
-		if len(d) == 0 || len(d) > c.Seg {
-			res.Violate("loop-segment-size", "empty or oversized segment", c)
-		}
-		got = append(got, d...)
-	}
-	if !encx.IsPrefix(got, data) {
-		res.Violate("loop-not-prefix", "processed bytes are not a prefix of the content", c)
-	}
-	if term == "ok" && (!bytes.Equal(got, data) || c.Script.Term != "eof" && c.FailCall < 0) {
-		if c.Script.Term != "eof" {
-			res.Violate("loop-source-error-lost", "source failed but the pipe closed cleanly", c)
-		} else {
-			res.Violate("loop-silent-truncation", "clean end without processing all content", c)
-		}
-	}
-	if c.Script.Term == "eof" && c.FailCall < 0 && term != "ok" {
-		res.Violate("loop-spurious-error", "non-failing source and processFn but terminal "+term, c)
-	}
 }
 
 func checkDoc(res *lib.Result, drv *lib.Drv, real bool, c docCase, rng *lib.Rand, idx int) {
@@ -730,23 +438,38 @@ func checkDoc(res *lib.Result, drv *lib.Drv, real bool, c docCase, rng *lib.Rand
 		res.Sample(c)
 	}
 	p := plainOf(c)
-	if o.encErr != nil || o.termErr != nil {
-		res.Violate("encrypt-fails", fmt.Sprintf("Encrypt failed on valid options: %v / %v", o.encErr, o.termErr), c)
+	hl := headerLenOf(c)
+	hc := hdrClass(hl)
+	res.Hit("doc.header" + hdrBucket(hl))
+	if o.encErr != nil && hl > 65536 && strings.Contains(o.encErr.Error(), "header is too long") {
+		// the code's own limit (SignHeader: "The header must not be bigger than 64KB"): Encrypt refuses.
+		// Decrypt must then refuse the same header made by an independent encoder, and the model agrees on both.
+		res.Hit("doc.encrypt=header-too-long")
+		checkOversized(res, drv, real, c, p)
 		return
 	}
+	if o.encErr != nil || o.termErr != nil {
+		res.Violate("encrypt-fails"+hc, fmt.Sprintf("Encrypt failed on valid options (header of %d bytes): %v / %v", hl, o.encErr, o.termErr), c)
+		return
+	}
+	if _, l2, l3, payload, err := encx.SplitHeader(o.doc); err == nil {
+		if got := len(o.doc) - len(payload); got != hl {
+			res.Violate("layout-header-length"+hc, fmt.Sprintf("header has %d bytes, the layout gives %d (manifest %d, MAC line %d)", got, hl, len(l2), len(l3)), c)
+		}
+	}
 	// monitor 1: WrapKeyFn saw the canonical algorithm and the key name
-	if o.wrapAlg != canonAlg[c.Alg] || o.wrapKey != c.KeyName {
+	if o.wrapAlg != canonAlg[c.Alg] || o.wrapKey != c.kn() {
 		res.Violate("wrap-arguments", fmt.Sprintf("WrapKeyFn(alg=%q,key=%q)", o.wrapAlg, o.wrapKey), c)
 	}
 	// monitor 2: layout by the independent decoder
 	ip, im, ierr := encx.IndepDecrypt(o.doc, o.fk)
 	if ierr != nil {
-		res.Violate("layout-independent-decoder", "an independent README decoder rejects Encrypt's output: "+ierr.Error(), c)
+		res.Violate("layout-independent-decoder"+hc, "an independent README decoder rejects Encrypt's output: "+ierr.Error(), c)
 	} else {
 		if !bytes.Equal(ip, p) {
 			res.Violate("layout-independent-plaintext", "independent decoder yields a different plaintext", c)
 		}
-		if im.K != expectKeyName(c) || im.KW != algID[canonAlg[c.Alg]] || im.Cph != cphID[c.Cipher] || !bytes.Equal(im.WFK, wrapMask(o.fk)) {
+		if im.K != expectKeyName(c) || im.KW != algID[canonAlg[c.Alg]] || im.Cph != cphID[c.Cipher] || !bytes.Equal(im.WFK, c.wrapFor(o.fk)) {
 			res.Violate("manifest-fields", fmt.Sprintf("manifest %+v", im), c)
 		}
 		nseg := (len(p) + 65535) / 65536
@@ -770,11 +493,11 @@ func checkDoc(res *lib.Result, drv *lib.Drv, real bool, c docCase, rng *lib.Rand
 		res.Hit("doc.decrypt=keyMissing")
 	} else {
 		if o.decErr != nil || o.decTerm != nil {
-			res.Violate("roundtrip-error", fmt.Sprintf("Decrypt(Encrypt(p)) failed: %v / %v", o.decErr, o.decTerm), c)
+			res.Violate("roundtrip-error"+hc, fmt.Sprintf("Decrypt(Encrypt(p)) failed (header of %d bytes): %v / %v", hl, o.decErr, o.decTerm), c)
 		} else if !bytes.Equal(o.plain, p) {
-			res.Violate("roundtrip-mismatch", fmt.Sprintf("Decrypt(Encrypt(p)) returned %d bytes, want %d", len(o.plain), len(p)), c)
+			res.Violate("roundtrip-mismatch"+hc, fmt.Sprintf("Decrypt(Encrypt(p)) returned %d bytes, want %d", len(o.plain), len(p)), c)
 		}
-		if o.unwrapKN != wantKN || o.unwrapAl != canonAlg[c.Alg] {
+		if o.unwrapN > 0 && (o.unwrapKN != wantKN || o.unwrapAl != canonAlg[c.Alg]) {
 			res.Violate("unwrap-arguments", fmt.Sprintf("UnwrapKeyFn(alg=%q,key=%q), want key %q", o.unwrapAl, o.unwrapKN, wantKN), c)
 		}
 		res.Hit("doc.decrypt=ok")
@@ -803,7 +526,7 @@ func checkDoc(res *lib.Result, drv *lib.Drv, real bool, c docCase, rng *lib.Rand
 		var derr, dterm error
 		gerr := encx.Guard(60*time.Second, func() error {
 			r, err := enc.Decrypt(mid.Reader(), enc.DecryptOptions{KeyName: c.Override,
-				UnwrapKeyFn: func(w []byte, alg, kn string, nonce, tag []byte) ([]byte, error) { return wrapMask(w), nil }})
+				UnwrapKeyFn: func(w []byte, alg, kn string, nonce, tag []byte) ([]byte, error) { return unwrapOf(w), nil }})
 			if err != nil {
 				derr = err
 				return nil
@@ -812,7 +535,7 @@ func checkDoc(res *lib.Result, drv *lib.Drv, real bool, c docCase, rng *lib.Rand
 			return nil
 		})
 		if gerr != nil || derr != nil || dterm != nil || !bytes.Equal(got, p) {
-			res.Violate("interop-independent-encoder", fmt.Sprintf("Decrypt rejects/misreads an independent encoder's document: %v %v %v", gerr, derr, dterm), c)
+			res.Violate("interop-independent-encoder"+hc, fmt.Sprintf("Decrypt rejects/misreads an independent encoder's document: %v %v %v", gerr, derr, dterm), c)
 		}
 	}
 	// T2b: the Lean specification encoder reproduces the document byte for byte
@@ -867,6 +590,350 @@ func checkDoc(res *lib.Result, drv *lib.Drv, real bool, c docCase, rng *lib.Rand
 		if kv["term"] != implTerm || kv["out"] != encx.Hex(implOut) {
 			res.Disagree("Decrypt(real) = Kit.Enc.decryptImpl over Lean-native primitives", c, "term="+kv["term"]+" out="+summarize(kv["out"]), "term="+implTerm+" out="+summarize(encx.Hex(implOut)))
 		}
+	}
+}
+
+// checkOversized: options whose header exceeds 64 KiB. Encrypt refused; the model must refuse too,
+// and the real Decrypt and the model must agree on the same header produced by an independent
+// encoder (by the code: both refuse, the header does not fit the 64 KiB read buffer).
+func checkOversized(res *lib.Result, drv *lib.Drv, real bool, c docCase, p []byte) {
+	fk := lib.NewRand(c.PlainSeed ^ 0x5151).Bytes(32)
+	np := lib.NewRand(c.PlainSeed ^ 0x7272).Bytes(7)
+	m := struct {
+		K   string `json:"k,omitempty"`
+		KW  int    `json:"kw"`
+		WFK []byte `json:"wfk"`
+		Cph int    `json:"cph"`
+		NP  []byte `json:"np"`
+	}{expectKeyName(c), algID[canonAlg[c.Alg]], c.wrapFor(fk), cphID[c.Cipher], np}
+	manifest, _ := json.Marshal(m)
+	idoc := encx.IndepEncrypt(fk, np, manifest, m.Cph, p)
+	mid := c.Mid
+	mid.Data = idoc
+	var got []byte
+	var derr, dterm error
+	gerr := encx.Guard(60*time.Second, func() error {
+		r, err := enc.Decrypt(mid.Reader(), enc.DecryptOptions{KeyName: c.Override,
+			UnwrapKeyFn: func(w []byte, alg, kn string, nonce, tag []byte) ([]byte, error) { return unwrapOf(w), nil }})
+		if err != nil {
+			derr = err
+			return nil
+		}
+		got, dterm = encx.Drain(r, c.Out)
+		return nil
+	})
+	implTerm := encx.Canon(dterm)
+	if derr != nil {
+		implTerm, got = encx.Canon(derr), nil
+	}
+	if gerr != nil {
+		implTerm = encx.Canon(gerr)
+		res.Violate("decrypt-"+implTerm+":oversized-header", "Decrypt did not return normally on an oversized header", c)
+		return
+	}
+	res.Hit("doc.oversized.decrypt=" + implTerm)
+	if implTerm == "ok" && !bytes.Equal(got, p) {
+		res.Violate("roundtrip-mismatch:header>65536", "Decrypt accepted an oversized header and released the wrong bytes", c)
+	}
+	if !real || drv == nil {
+		return
+	}
+	ans, err := drv.Ask(fmt.Sprintf("enc fk=%s np=%s wfk=%s kw=%d cph=%d keyname=%s plain=%s",
+		encx.Hex(fk), encx.Hex(np), encx.Hex(m.WFK), m.KW, m.Cph, encx.Hex([]byte(m.K)), encx.Hex(p)))
+	if err != nil {
+		res.Disagree("driver-alive", c, err.Error(), "")
+		return
+	}
+	res.Traces++
+	if kv := encx.KV(ans); kv["refuse"] != "headerTooLong" {
+		res.Disagree("Encrypt(real) refuses an oversized header = Kit.Enc.encryptImpl", c, summarize(ans), "Encrypt: header is too long")
+	}
+	ans, err = drv.Ask(fmt.Sprintf("dec fk=%s keyname=%s %s", encx.Hex(fk), encx.Hex([]byte(c.Override)), mid.Line("data")))
+	if err != nil {
+		res.Disagree("driver-alive", c, err.Error(), "")
+		return
+	}
+	res.Traces++
+	kv := encx.KV(ans)
+	if kv["unmodelled"] != "" {
+		res.Hit("doc.lean=unmodelled:" + kv["unmodelled"])
+		return
+	}
+	if kv["term"] != implTerm || kv["out"] != encx.Hex(got) {
+		res.Disagree("Decrypt(real) = Kit.Enc.decryptImpl on an oversized header", c, "term="+kv["term"], "term="+implTerm)
+	}
+}
+
+// ---- interleaved / parallel consumers (monitor only: the model has no notion of two streams) ----
+
+type ilCase struct {
+	Kind      string `json:"kind"` // interleave
+	SeedA     uint64 `json:"seed_a"`
+	SeedB     uint64 `json:"seed_b"`
+	LenA      int    `json:"len_a"`
+	LenB      int    `json:"len_b"`
+	Cipher    string `json:"cipher"`
+	Phase     string `json:"phase"`      // decrypt | encrypt: which stream of A is left partly read while B runs
+	ReadFirst int    `json:"read_first"` // bytes of A's output consumed before B starts (0 = none)
+	Pause     bool   `json:"pause"`      // let A's goroutine run until it blocks before B starts
+	BMode     string `json:"b_mode"`     // same | goroutine
+	BRounds   int    `json:"b_rounds"`   // complete Encrypt→Decrypt round trips of B while A is pending
+	Procs     int    `json:"gomaxprocs"` // 0 = unchanged
+	Parallel  int    `json:"parallel"`   // > 0: that many concurrent round trips instead of A/B
+	DrainBuf  int    `json:"drain_buf"`
+}
+
+func ilOpts(ciph string, fkOut *[]byte) enc.EncryptOptions {
+	o := enc.EncryptOptions{Algorithm: enc.KeyAlgorithmAES256KW, KeyName: "kek",
+		WrapKeyFn: func(k []byte, alg, kn string, nonce []byte) ([]byte, []byte, error) {
+			if fkOut != nil {
+				*fkOut = append([]byte(nil), k...)
+			}
+			return wrapMask(k), nil, nil
+		}}
+	if ciph != "" {
+		c := enc.Cipher(ciph)
+		o.Cipher = &c
+	}
+	return o
+}
+
+var ilDec = enc.DecryptOptions{UnwrapKeyFn: func(w []byte, alg, kn string, nonce, tag []byte) ([]byte, error) { return wrapMask(w), nil }}
+
+// roundTrip encrypts and decrypts p sequentially; returns a description of what went wrong ("" = fine).
+func roundTrip(p []byte, ciph string, bufs []int) string {
+	r, err := enc.Encrypt(bytes.NewReader(p), ilOpts(ciph, nil))
+	if err != nil {
+		return "Encrypt: " + err.Error()
+	}
+	doc, terr := encx.Drain(r, bufs)
+	if terr != nil {
+		return "Encrypt stream: " + terr.Error()
+	}
+	d, err := enc.Decrypt(bytes.NewReader(doc), ilDec)
+	if err != nil {
+		return "ERROR Decrypt: " + err.Error()
+	}
+	got, terr := encx.Drain(d, bufs)
+	if terr != nil {
+		return "ERROR Decrypt stream: " + terr.Error()
+	}
+	if !bytes.Equal(got, p) {
+		return fmt.Sprintf("MISMATCH: %d bytes, want %d, first difference at %d", len(got), len(p), firstDiff(got, p))
+	}
+	return ""
+}
+
+func firstDiff(a, b []byte) int {
+	for i := 0; i < len(a) && i < len(b); i++ {
+		if a[i] != b[i] {
+			return i
+		}
+	}
+	if len(a) < len(b) {
+		return len(a)
+	}
+	return len(b)
+}
+
+// runInterleave returns a list of problems, each prefixed ERROR or MISMATCH.
+func runInterleave(c ilCase) []string {
+	var problems []string
+	if c.Procs > 0 {
+		old := runtime.GOMAXPROCS(c.Procs)
+		defer runtime.GOMAXPROCS(old)
+	}
+	pA := lib.NewRand(c.SeedA).Bytes(c.LenA)
+	pB := lib.NewRand(c.SeedB).Bytes(c.LenB)
+	bufs := []int{c.DrainBuf}
+	if c.DrainBuf <= 0 {
+		bufs = nil
+	}
+	if c.Parallel > 0 {
+		var mu sync.Mutex
+		var wg sync.WaitGroup
+		for g := 0; g < c.Parallel; g++ {
+			wg.Add(1)
+			go func(g int) {
+				defer wg.Done()
+				defer func() {
+					if x := recover(); x != nil {
+						mu.Lock()
+						problems = append(problems, fmt.Sprintf("ERROR panic in stream %d: %v", g, x))
+						mu.Unlock()
+					}
+				}()
+				p := lib.NewRand(c.SeedA + uint64(g)*7919).Bytes([]int{c.LenA, c.LenB, 1, 65536 + g}[g%4])
+				for round := 0; round < 3; round++ {
+					if w := roundTrip(p, c.Cipher, []int{1 + (g*977+round*131)%70000}); w != "" {
+						mu.Lock()
+						problems = append(problems, fmt.Sprintf("%s (parallel stream %d of %d, round %d)", w, g, c.Parallel, round))
+						mu.Unlock()
+						return
+					}
+				}
+			}(g)
+		}
+		wg.Wait()
+		return problems
+	}
+	runB := func() {
+		for i := 0; i < c.BRounds; i++ {
+			if w := roundTrip(pB, c.Cipher, nil); w != "" {
+				problems = append(problems, w+" (stream B, running while A was pending)")
+			}
+		}
+	}
+	startB := func() {
+		if c.BMode == "goroutine" {
+			done := make(chan struct{})
+			go func() { defer close(done); runB() }()
+			<-done
+		} else {
+			runB()
+		}
+	}
+	pause := func() {
+		if c.Pause {
+			for i := 0; i < 20; i++ {
+				runtime.Gosched()
+			}
+			time.Sleep(2 * time.Millisecond)
+		}
+	}
+	readFirst := func(r io.Reader) ([]byte, error) {
+		if c.ReadFirst <= 0 {
+			return nil, nil
+		}
+		b := make([]byte, c.ReadFirst)
+		n, err := io.ReadFull(r, b)
+		if err == io.EOF || err == io.ErrUnexpectedEOF {
+			err = nil
+		}
+		return b[:n], err
+	}
+	var fkA []byte
+	switch c.Phase {
+	case "encrypt":
+		rE, err := enc.Encrypt(bytes.NewReader(pA), ilOpts(c.Cipher, &fkA))
+		if err != nil {
+			return append(problems, "ERROR Encrypt A: "+err.Error())
+		}
+		head, err := readFirst(rE)
+		if err != nil {
+			return append(problems, "ERROR Encrypt stream A: "+err.Error())
+		}
+		pause()
+		startB()
+		rest, terr := encx.Drain(rE, bufs)
+		if terr != nil {
+			return append(problems, "ERROR Encrypt stream A: "+terr.Error())
+		}
+		docA := append(head, rest...)
+		if ip, _, ierr := encx.IndepDecrypt(docA, fkA); ierr != nil {
+			problems = append(problems, "MISMATCH: ciphertext of A (left partly read while B ran) is not a valid document: "+ierr.Error())
+		} else if !bytes.Equal(ip, pA) {
+			problems = append(problems, fmt.Sprintf("MISMATCH: ciphertext of A decodes to other bytes (first difference at %d)", firstDiff(ip, pA)))
+		}
+	default:
+		r, err := enc.Encrypt(bytes.NewReader(pA), ilOpts(c.Cipher, &fkA))
+		if err != nil {
+			return append(problems, "ERROR Encrypt A: "+err.Error())
+		}
+		docA, terr := encx.Drain(r, nil)
+		if terr != nil {
+			return append(problems, "ERROR Encrypt stream A: "+terr.Error())
+		}
+		rD, err := enc.Decrypt(bytes.NewReader(docA), ilDec)
+		if err != nil {
+			return append(problems, "ERROR Decrypt A: "+err.Error())
+		}
+		head, err := readFirst(rD)
+		if err != nil {
+			return append(problems, "ERROR Decrypt stream A: "+err.Error())
+		}
+		pause()
+		startB()
+		rest, terr := encx.Drain(rD, bufs)
+		if terr != nil {
+			return append(problems, "ERROR Decrypt stream A (drained after B ran): "+terr.Error())
+		}
+		got := append(head, rest...)
+		if !bytes.Equal(got, pA) {
+			problems = append(problems, fmt.Sprintf("MISMATCH: A decrypted WITHOUT ERROR to the wrong bytes after B ran in between (%d bytes, want %d, first difference at %d)", len(got), len(pA), firstDiff(got, pA)))
+		}
+	}
+	return problems
+}
+
+func genInterleave(tier string, rng *lib.Rand, search bool) []ilCase {
+	var cases []ilCase
+	const S = 65536
+	lensA := []int{300, 100000, 2*S + 1}
+	lensB := []int{300, 70000}
+	reads := []int{0, 10, S / 2}
+	full := tier == "thorough" || search
+	i := 0
+	for _, la := range lensA {
+		for _, lb := range lensB {
+			for _, rf := range reads {
+				for _, ph := range []string{"decrypt", "encrypt"} {
+					for _, bm := range []string{"same", "goroutine"} {
+						for _, procs := range []int{0, 1} {
+							i++
+							if !full && i%3 != 0 && !(ph == "decrypt" && bm == "same" && procs == 0) {
+								continue
+							}
+							cases = append(cases, ilCase{Kind: "interleave", SeedA: rng.U64(), SeedB: rng.U64(), LenA: la, LenB: lb,
+								Cipher: []string{"AES-GCM", "CHACHA20-POLY1305"}[i%2], Phase: ph, ReadFirst: rf, Pause: i%4 != 1, BMode: bm,
+								BRounds: 1 + i%2, Procs: procs, DrainBuf: []int{0, 1000, 65536, 7}[i%4] * (1 - (la/100000)*(i%4/3))})
+						}
+					}
+				}
+			}
+		}
+	}
+	for _, n := range []int{2, 4, 16} {
+		for _, procs := range []int{0, 1} {
+			cases = append(cases, ilCase{Kind: "interleave", SeedA: rng.U64(), LenA: 100000, LenB: 300, Cipher: "AES-GCM", Parallel: n, Procs: procs})
+		}
+	}
+	return cases
+}
+
+func checkInterleave(res *lib.Result, c ilCase, idx int) {
+	if encx.TooStuck() {
+		return
+	}
+	encx.Inflight(c)
+	var problems []string
+	gerr := encx.Guard(120*time.Second, func() error { problems = runInterleave(c); return nil })
+	key, _ := json.Marshal(c)
+	res.Count(string(key), true)
+	if c.Parallel > 0 {
+		res.Hit(fmt.Sprintf("interleave.parallel=%d", c.Parallel))
+	} else {
+		res.Hit("interleave.phase=" + c.Phase)
+		res.Hit("interleave.b=" + c.BMode)
+		res.Hit(fmt.Sprintf("interleave.read_first=%d", c.ReadFirst))
+	}
+	res.Hit(fmt.Sprintf("interleave.gomaxprocs=%d", c.Procs))
+	if idx%29 == 0 {
+		res.Sample(c)
+	}
+	if gerr != nil {
+		res.Violate("interleaved-streams-"+encx.Canon(gerr), "interleaved Encrypt/Decrypt streams did not finish: "+gerr.Error(), c)
+		return
+	}
+	for _, w := range problems {
+		if strings.HasPrefix(w, "MISMATCH") {
+			res.Violate("roundtrip-mismatch-interleaved-streams", w, c)
+		} else {
+			res.Violate("roundtrip-error-interleaved-streams", w, c)
+		}
+	}
+	if len(problems) == 0 {
+		res.Hit("interleave.ok")
 	}
 }
 
@@ -992,35 +1059,8 @@ func replay(f lib.Flags, res *lib.Result, drv *lib.Drv) {
 	}
 	json.Unmarshal(rf.Case, &kind)
 	switch kind.Kind {
-	case "ps":
-		var c psCase
-		json.Unmarshal(rf.Case, &c)
-		impl := runPS(c)
-		checkPSMonitor(res, c, impl)
-		res.Count(c.line(), true)
-		res.Note("replay impl: " + impl)
-		if drv != nil {
-			if a, err := drv.Ask(c.line()); err == nil {
-				res.Note("replay model: " + a)
-				if a != impl {
-					res.Disagree("processSegments(real, overlay) = Kit.Enc.processSegments", c, a, impl)
-				}
-			}
-		}
-	case "rh":
-		var c rhCase
-		json.Unmarshal(rf.Case, &c)
-		impl := runRH(c)
-		res.Count(c.line(), true)
-		res.Note("replay impl: " + impl)
-		if drv != nil {
-			if a, err := drv.Ask(c.line()); err == nil {
-				res.Note("replay model: " + a)
-				if a != impl {
-					res.Disagree("readHeader(real, overlay) = Kit.Enc.readHeader", c, a, impl)
-				}
-			}
-		}
+	case "ps", "rh":
+		encx.RunLoop("c01", f, res)
 	case "doc":
 		var c docCase
 		json.Unmarshal(rf.Case, &c)
@@ -1030,6 +1070,10 @@ func replay(f lib.Flags, res *lib.Result, drv *lib.Drv) {
 			real = err == nil && strings.Contains(a, "real=1")
 		}
 		checkDoc(res, drv, real, c, lib.NewRand(f.Seed), 0)
+	case "interleave":
+		var c ilCase
+		json.Unmarshal(rf.Case, &c)
+		checkInterleave(res, c, 1)
 	default:
 		res.Note("replay: unknown case kind " + kind.Kind)
 	}
